@@ -28,6 +28,7 @@ import (
 	"strings"
 	"sync"
 	"sync/atomic"
+	"syscall"
 	"time"
 
 	"bsim/minimise"
@@ -109,13 +110,39 @@ func main() {
 // cannot see (a goroutine waiting on a sync.Mutex is not "durably blocked" for
 // synctest, so synctest.Wait never returns). Dump every stack and die; the parent
 // decides from the dump whether a library goroutine is the one that hangs.
+//
+// 40 s of real time is not 40 s of work on a machine that runs other checks beside this one: when
+// the timer fires, the CPU time this process has used since the run began decides. Next to none:
+// the run is blocked, report it. More than 60 s: it is busy and will not end, report it. In
+// between: the process is being starved, look again in 40 s (at most 15 times).
 func hangWatchdog() *time.Timer {
-	return time.AfterFunc(40*time.Second, func() {
+	start := cpuTime()
+	last := start
+	rounds := 0
+	var t *time.Timer
+	t = time.AfterFunc(40*time.Second, func() {
+		now := cpuTime()
+		used, progress := now-start, now-last
+		last = now
+		rounds++
+		if progress > 500*time.Millisecond && used < 60*time.Second && rounds < 15 {
+			t.Reset(40 * time.Second)
+			return
+		}
 		buf := make([]byte, 1<<20)
 		n := runtime.Stack(buf, true)
-		fmt.Fprintf(os.Stderr, "BSIM-HANG: run did not finish in 40 s of real time\n%s\n", buf[:n])
+		fmt.Fprintf(os.Stderr, "BSIM-HANG: run did not finish in %d s of real time (%v of CPU time)\n%s\n", 40*rounds, used, buf[:n])
 		os.Exit(3)
 	})
+	return t
+}
+
+func cpuTime() time.Duration {
+	var ru syscall.Rusage
+	if syscall.Getrusage(syscall.RUSAGE_SELF, &ru) != nil {
+		return 0
+	}
+	return time.Duration(ru.Utime.Nano() + ru.Stime.Nano())
 }
 
 func runPlan(p *vm.Plan, trace bool) *vm.Result {
